@@ -303,6 +303,19 @@ func (uv *UtxoVM) UpdateUtxoTotal(delta *big.Int, batch kvdb.Batch, inc bool) {
 	batch.Put(append([]byte(pb.MetaTablePrefix), []byte(UTXOTotalKey)...), uv.utxoTotal.Bytes())
 }
 
+// ReloadUtxoTotal 从meta表重新加载总资产, 用于区块执行失败后丢弃内存中已经累加但没有落盘的值
+func (uv *UtxoVM) ReloadUtxoTotal() {
+	total := big.NewInt(0)
+	utxoTotalBytes, findTotalErr := uv.metaHandle.MetaTable.Get([]byte(UTXOTotalKey))
+	if findTotalErr == nil {
+		total.SetBytes(utxoTotalBytes)
+	} else if def.NormalizedKVError(findTotalErr) != def.ErrKVNotFound {
+		uv.log.Warn("reload utxo total failed", "err", findTotalErr)
+		return
+	}
+	uv.utxoTotal = total
+}
+
 // parseUtxoKeys extract (txid, offset) from key of utxo item
 func (uv *UtxoVM) parseUtxoKeys(uKey string) ([]byte, int, error) {
 	keyTuple := strings.Split(uKey[1:], "_") // [1:] 是为了剔除表名字前缀
